@@ -226,6 +226,13 @@ func init() {
 								for _, a := range x.Args[1:] {
 									cl, ok := ast.Unparen(a).(*ast.CompositeLit)
 									if !ok {
+										// a local this function built from a composite literal (fields filled in
+										// afterwards) is just as complete a new value
+										if id, isID := ast.Unparen(a).(*ast.Ident); isID && freshLocalStruct(info, u.Decl.Body, id) {
+											if tv, ok := info.Types[id]; ok && types.Unalias(tv.Type) == types.Type(frameT) {
+												continue
+											}
+										}
 										allLit = false
 										continue
 									}
